@@ -82,4 +82,30 @@ def main(argv=None):
             results = pool.map(_run_unit, jobs, chunksize=1)
     else:
         results = [_run_unit(j) for j in jobs]
-    return report.finish(args.prop, args.tier, results, time.time() - t0, verbose=args.v, partial=bool(args.unit))
+    rc = report.finish(args.prop, args.tier, results, time.time() - t0, verbose=args.v, partial=bool(args.unit))
+    if args.tier == "thorough" and not args.unit and "SEGVC_OUT" not in os.environ:
+        selftest(args.prop, t0)
+    return rc
+
+
+def selftest(prop, t0):
+    """thorough tier: run the seeded edits of segvc.mutants for this property on scratch copies and record in the
+    evidence which were reported / stayed quiet.  The verdict of the check itself is not changed by it."""
+    from segvc import mutants
+
+    todo = [m for m in mutants.MUTANTS if m[1] == prop]
+    rows = []
+    from concurrent.futures import ThreadPoolExecutor
+
+    with ThreadPoolExecutor(max_workers=4) as ex:
+        for mid, status, detail in ex.map(mutants.run_one, todo):
+            rows.append({"mutant": mid, "status": status, "detail": detail})
+            if status == "WRONG":
+                print(f"SELFTEST-WARNING {mid}: {detail}")
+    path = os.path.join(ROOT, "evidence", f"{prop}.json")
+    ev = json.load(open(path))
+    ev["coverage"]["selftest_seeded_edits"] = rows
+    ev["coverage"]["selftest_summary"] = f"{sum(r['status'] == 'ok' for r in rows)}/{len(rows)} seeded edits behaved as expected (break -> reported, harmless -> quiet); stale = edit site no longer present in the current tree"
+    ev["wall_s"] = round(time.time() - t0, 3)
+    json.dump(ev, open(path, "w"), indent=1)
+    print(f"{prop}: selftest {ev['coverage']['selftest_summary']}")
